@@ -247,6 +247,8 @@ def facts(ctx, node, with_origin=False):
 
 def for_range(ctx, fornode):
     """(var_term, lo_term, hi_term, inclusive, reversed) of `for v in lo..hi` (or None)."""
+    if fornode.get("k") != "For" or fornode.get("iter") is None:
+        return None
     it = strip(fornode["iter"])
     rev = False
     while it.get("k") == "MethodCall" and it.get("name") == "rev":
